@@ -434,3 +434,48 @@ def rule_distinctness_predicates(ck, repo, R):
     ck.decide(ok, R, 'tetrahedron', src(t), f'tetrahedron is taken as chiral under `{src(t)}`; required: all neighbours have distinct ranks (len of the rank set == len of the environment)',
               file=f.file, line=t.lineno, func='MoleculeStereo.__chiral_centers', construct=src(t))
     ck.floor(R, 5)
+
+
+def rule_pair_key_symmetry(ck, repo, R):
+    ck.rule(R, 'equivalent cis/trans bonds are grouped under a key that does not depend on the stored direction of the terminal pair (n, m): the key is the '
+               'smaller of the two terminal ranks (both ranks consulted and compared). The direction of the stored pair follows atom insertion order, so a key '
+               'taken from the first terminal alone splits equivalent bonds by numbering')
+    ms = repo.cls('chython.algorithms.stereo:MoleculeStereo')
+    f = None
+    for name, fs in ms.methods.items():
+        if name.endswith('__differentiation'):
+            f = fs[0]
+    ck.require(f is not None, '__differentiation not found')
+    loops = [n for n in ast.walk(f.node) if isinstance(n, ast.For) and src(n.iter) == 'cis_trans_stereo']
+    ck.require(len(loops) == 1, '__differentiation: loop over cis_trans_stereo not found')
+    lp = loops[0]
+    unp = [s for s in lp.body if isinstance(s, ast.Assign) and isinstance(s.targets[0], ast.Tuple) and src(s.value) == src(lp.target)]
+    ck.require(len(unp) == 1 and len(unp[0].targets[0].elts) == 2, '__differentiation: `n, m = nm` not found')
+    a, b = [e.id for e in unp[0].targets[0].elts]
+    walrus = {n.target.id: n.value for n in ast.walk(lp) if isinstance(n, ast.NamedExpr)}
+    local = {s.targets[0].id: s.value for s in ast.walk(lp) if isinstance(s, ast.Assign) and isinstance(s.targets[0], ast.Name)}
+
+    def ends(e, depth=0):
+        out = set()
+        for n in ast.walk(e):
+            if isinstance(n, ast.Subscript) and src(n.value) == 'morgan' and isinstance(n.slice, ast.Name) and n.slice.id in (a, b):
+                out.add(n.slice.id)
+            elif isinstance(n, ast.Name) and depth < 3:
+                if n.id in walrus:
+                    out |= ends(walrus[n.id], depth + 1)
+                elif n.id in local and n.id not in (a, b):
+                    out |= ends(local[n.id], depth + 1)
+        return out
+    keys = [n.func.value.slice for n in ast.walk(lp) if isinstance(n, ast.Call) and isinstance(n.func, ast.Attribute) and n.func.attr == 'append' and
+            isinstance(n.func.value, ast.Subscript) and src(n.func.value.value) == 'grouped_stereo']
+    ck.require(keys, '__differentiation: grouped_stereo[...].append not found in the cis/trans loop')
+    used = set()
+    for k in keys:
+        used |= ends(k)
+    compared = any(isinstance(n, ast.Compare) and ends(n) == {a, b} for n in ast.walk(lp)) or \
+        any(isinstance(n, ast.Call) and isinstance(n.func, ast.Name) and n.func.id in ('min', 'max', 'sorted') and ends(n) == {a, b} for n in ast.walk(lp))
+    ck.decide(used == {a, b} and compared, R, 'cis-trans-group-key', sorted(used),
+              f'cis/trans groups are keyed by the rank of {sorted(used)} only (of the stored pair ({a}, {b})){"" if compared else " without comparing the two ranks"}: '
+              f'two equivalent bonds stored in opposite directions land in different groups and the pseudo-centre refinement is skipped for them',
+              file=f.file, line=keys[0].lineno, func=f.qualname, construct=src(keys[0]))
+    ck.floor(R, 1)
